@@ -22,4 +22,5 @@ W22 == Progs(2, 3, 2, 0)   R22 == Progs(2, 3, 2, 1)
 TI == {Inf}
 T1 == {Inf, 1}
 T012 == {Inf, 0, 1, 2}
+T01 == {Inf, 0, 1}
 ====
